@@ -1,6 +1,7 @@
 mod cat;
 mod engine;
 mod h_basic;
+mod h_subject;
 mod harness;
 mod model;
 mod val;
@@ -45,6 +46,7 @@ fn json_str(s: &str) -> String {
 fn all_harnesses() -> Vec<HarnessDef> {
   let mut v = vec![];
   v.extend(h_basic::harnesses());
+  v.extend(h_subject::harnesses());
   v
 }
 
